@@ -20,7 +20,7 @@ None == "none"
 Fallbacks == {"absent", "fh", "ft"}  \* absent / a height / a time
 
 \* fields whose presence must not influence the unique id
-InExtras  == {"sequence", "partial_sig", "tap_key_sig", "tap_script_sig", "final_script_sig",
+InExtras  == {"sequence", "sequence_final", "partial_sig", "tap_key_sig", "tap_script_sig", "final_script_sig",
               "final_script_witness", "redeem_script", "witness_script", "bip32_derivation",
               "tap_key_origin", "witness_utxo", "sighash_type", "issuance_value_proof"}
 OutExtras == {"bip32_derivation", "value_proof", "asset_proof", "tap_internal_key", "redeem_script"}
